@@ -108,6 +108,7 @@ def _alloc(Mx):
 for _M in SPACES:
     harness('c13.allocate_stream[M=%#x]' % _M, ['C13', 'C01'], functions=[ALLOC, SC + '._increment_stream_id'],
             replay='c13_allocate', desc='loop invariant / first-free / fails-only-if-full for maximum id %#x' % _M,
+            fallback=r'^c13\.allocate_stream\.unrolled',
             assumptions=['M/2 in `attempt_counter > M / 2` is a float in CPython; treated as an exact real (M < 2^53)'])(_alloc(_M))
 
 
